@@ -5,4 +5,9 @@ CONSTANTS
   AllCursors = FALSE
   Glue = {"sp", "nl"}
   ParamMax = 2
+  LOpen = {"star", "star2", "us", "us2", "tick", "tick2", "linkopen", "roleopen", "mystopen", "lt"}
+  LFill = {"txt"}
+  LSpan = {"code", "link", "mystrole", "role", "math", "javadoc", "em", "strong", "autolink", "rstlink", "html"}
+  LSep = {"nl", "blank"}
+  LFollow = {"txt", "heading", "code"}
 INVARIANTS Emit
